@@ -172,7 +172,7 @@ def kinds_in(d, acc=None):
     return acc
 
 
-def universe(tier, seed, kinds, quick_nodes=4, thorough_nodes=5, thorough_sample=(6, 20000),
+def universe(tier, seed, kinds, quick_nodes=4, thorough_nodes=5, thorough_sample=None,
              childless=('leaf', 'none', 'empty_tuple', 'empty_dict'), quick_limit=None):
     """Descriptions of the tree scope: exhaustive up to N nodes (+ a seeded sample of larger trees)."""
     g = TreeGenA(kinds, childless, seed)
